@@ -47,14 +47,11 @@ def _call(kind, row, targs, rec):
     return out, exc, rec.take()
 
 
-def _pycontract(name, targs):
-    if name == "weight_like_input":
-        w, i = targs.get("weight"), targs.get("input")
-        return isinstance(i, torch.Tensor) and (not isinstance(w, torch.Tensor) or list(w.shape) == list(i.shape))
-    raise KeyError(name)
+def short(name: str) -> str:
+    return name.rpartition(".")[2]
 
 
-def enumerate_calls(rows):
+def enumerate_calls(rows, only_base=False):
     """(kind, row, label, tensor-args) for base calls and every perturbation."""
     for ri, row in enumerate(rows):
         for kind in ("fn", "cls"):
@@ -62,8 +59,10 @@ def enumerate_calls(rows):
                 continue
             base = row["t"]
             yield kind, ri, ("base", "", ""), dict(base)
+            if only_base:
+                continue
             for a, t in base.items():
-                for tag, new in SL.shape_perturbations(list(t.shape)):
+                for tag, new in SL.shape_perturbations(list(t.shape), weight=SL.is_weight_arg(a)):
                     targs = dict(base)
                     targs[a] = SL.reshape_cyclic(t, new)
                     yield kind, ri, ("single", a, tag), targs
@@ -76,6 +75,55 @@ def enumerate_calls(rows):
                     for a in group:
                         targs[a] = SL.reshape_cyclic(base[a], new)
                     yield kind, ri, ("joint", "+".join(group), tag), targs
+
+
+_SIG_CACHE: dict = {}
+
+
+def _entry_defaults(kind, row) -> dict:
+    """Default values of the entry point's own parameters (functional, or class ctor + update)."""
+    key = (kind, row[kind])
+    if key not in _SIG_CACHE:
+        import inspect
+        d = {}
+        if kind == "fn":
+            sigs = [inspect.signature(SL.resolve_fn(row["fn"]))]
+        else:
+            c = SL.resolve_cls(row["cls"])
+            sigs = [inspect.signature(c.__init__), inspect.signature(c.update)]
+        for sg in sigs:
+            for n, prm in sg.parameters.items():
+                if prm.default is not inspect.Parameter.empty:
+                    d[n] = prm.default
+        _SIG_CACHE[key] = d
+    return _SIG_CACHE[key]
+
+
+def synthesize_args(rec, fname, kind, row, targs):
+    """Arguments an EXPECTED check function would have received, resolved by parameter name from the call itself
+    (tensor arguments, keyword / constructor arguments, the entry point's defaults, the check's own defaults).
+    None when a parameter cannot be resolved."""
+    import inspect
+    m = rec.meta[fname]
+    out = {}
+    own = rec.defaults.get(fname, {})
+    ed = _entry_defaults(kind, row)
+    for p in m["params"]:
+        if p in targs:
+            out[p] = targs[p]
+        elif p in row["kw"]:
+            out[p] = row["kw"][p]
+        elif p in row["ckw"]:
+            out[p] = row["ckw"][p]
+        elif p in ed:
+            out[p] = ed[p]
+        elif p in own:
+            out[p] = own[p]
+        else:
+            return None
+    if fname.endswith("param_check") and "threshold" in out and not isinstance(out["threshold"], torch.Tensor):
+        return None
+    return out
 
 
 def _shape_cond(s, cond) -> bool:
@@ -137,29 +185,67 @@ def run(ctx):
     ctx.oblige("tie:translation:all-check-functions-translated", all(m["translated"] for m in meta.values()),
                detail=", ".join(n for n, m in meta.items() if not m["translated"]))
     refuted_now_note(ctx)
-    rows = SL.base_calls()
-    s = ctx.stream("shape-perturbation (functional + class update) vs Coq contracts")
+    rows = SL.option_variants(SL.base_calls())
+    s = ctx.stream("shape-perturbation (functional + class update, every option value) vs Coq contracts")
     s.exhaustive = True
-    s.note = "finite perturbation set of DESIGN 4/C18 enumerated completely; no sampling"
+    s.note = ("finite perturbation set of DESIGN 4/C18 enumerated completely for every documented layout and, one option at a "
+              "time, every value of the code-path options (optimization, average, from_logits, multioutput, ...); no sampling")
     st = ctx.stream("translation tie: real check function vs generated ShapeLang term")
     st.exhaustive = True
 
-    calls = []
-    model_cases = []
-    for kind, ri, label, targs in enumerate_calls(rows):
+    # ---- pass 1: base calls.  Which check functions guard a target (union over ALL its layouts / option values) ----
+    expected: dict[tuple, list[str]] = {}
+    base_ok = {}
+    for kind, ri, label, targs in enumerate_calls(rows, only_base=True):
         row = rows[ri]
         out, exc, invs = _call(kind, row, targs, rec)
+        base_ok[(kind, ri)] = (out == "returns", exc)
+        if out == "returns":
+            e = expected.setdefault((kind, short(row[kind])), [])
+            for inv in invs:
+                if inv["fn"] not in e:
+                    e.append(inv["fn"])
+    skipped = 0
+
+    # ---- pass 2: every perturbation -----------------------------------------------------------
+    calls = []
+    model_cases = []
+
+    def add_case(c, fname, args, outcome, synthesized):
+        enc = SL.encode_invocation(meta[fname], fname, args)
+        c["invs"].append({"fn": fname, "outcome": outcome, "idx": len(model_cases), "synthesized": synthesized,
+                          "args": {k: SL.describe(v) for k, v in args.items()}})
+        model_cases.append(("shape_contract", enc))
+        model_cases.append(("shape_check", enc))
+
+    for kind, ri, label, targs in enumerate_calls(rows):
+        row = rows[ri]
+        if not base_ok[(kind, ri)][0] and row["variant"]:
+            if label[0] == "base":
+                skipped += 1
+            continue                      # option value not applicable to this layout / entry point
+        out, exc, invs = _call(kind, row, targs, rec)
         c = {"kind": kind, "row": ri, "label": label, "outcome": out, "exc": exc, "invs": [],
-             "shapes": {a: list(t.shape) for a, t in targs.items()}, "targs": targs}
+             "shapes": {a: list(t.shape) for a, t in targs.items()}, "targs": targs, "unresolved": []}
+        reached = set()
         for inv in invs:
             if inv["args"] is None:
                 continue
-            enc = SL.encode_invocation(meta[inv["fn"]], inv["fn"], inv["args"])
-            c["invs"].append({"fn": inv["fn"], "outcome": inv["outcome"], "idx": len(model_cases),
-                              "args": {k: SL.describe(v) for k, v in inv["args"].items()}})
-            model_cases.append(("shape_contract", enc))
-            model_cases.append(("shape_check", enc))
+            reached.add(inv["fn"])
+            add_case(c, inv["fn"], inv["args"], inv["outcome"], False)
+        if out == "returns":
+            # a check function that guards this target on another code path but was NOT reached by this call:
+            # judge the call by that check's contract on the arguments it would have received
+            for fname in expected.get((kind, short(row[kind])), []):
+                if fname in reached:
+                    continue
+                args = synthesize_args(rec, fname, kind, row, targs)
+                if args is None:
+                    c["unresolved"].append(fname)
+                else:
+                    add_case(c, fname, args, None, True)
         calls.append(c)
+    ctx.notes.append(f"option-variant rows not applicable (base call rejected, skipped): {skipped}; rows: {len(rows)}")
     outs = model.run_model(model_cases)
     chk, bad = model.crosscheck_in_coq(model_cases, outs, "C18", limit=ctx.n(60, 200))
     ctx.oblige("tie:extraction:shape_contract/shape_check (in-Coq vm_compute vs extracted OCaml)", bad == 0,
@@ -170,6 +256,8 @@ def run(ctx):
     tr_bad: dict[str, dict] = {}
     for c in calls:
         for inv in c["invs"]:
+            if inv["synthesized"]:
+                continue
             mv = outs[inv["idx"] + 1]
             st.case((inv["fn"], repr(inv["args"])), inv["outcome"] != "ok",
                     sample={"check": inv["fn"], "args": inv["args"], "real": inv["outcome"], "model": mv})
@@ -179,7 +267,7 @@ def run(ctx):
                 st.mismatches.append({"check": inv["fn"]})
                 tr_bad.setdefault(inv["fn"], {"check": inv["fn"], "args": inv["args"], "real": inv["outcome"],
                                               "model_verdict": repr(mv)})
-    seen_checks = {inv["fn"] for c in calls for inv in c["invs"]}
+    seen_checks = {inv["fn"] for c in calls for inv in c["invs"] if not inv["synthesized"]}
     for fn in sorted(seen_checks):
         ctx.oblige(f"tie:translation:{fn}", fn not in tr_bad, detail=json.dumps(tr_bad.get(fn, {}))[:400])
         if fn in tr_bad:
@@ -188,58 +276,54 @@ def run(ctx):
     ctx.notes.append(f"check functions exercised by the perturbation stream: {len(seen_checks)} of {len(meta)}")
 
     # ---- (b) contract verdict vs implementation ------------------------------------------------
-    base_checks = {}
     reported = set()
     summary = []
     for c in calls:
         row = rows[c["row"]]
-        target = row[c["kind"]] if c["kind"] == "fn" else row["cls"]
+        target = short(row[c["kind"]])
         key = (c["kind"], c["row"])
+        exp = expected.get((c["kind"], target), [])
         if c["label"][0] == "base":
-            base_checks[key] = [i["fn"] for i in c["invs"]]
             ok = c["outcome"] == "returns"
-            ctx.oblige(f"base-call:{target}:{row['tag'] or 'default'}:{c['kind']}", ok, detail=c["exc"])
+            name = f"base-call:{target}:{row['tag'] or 'default'}:{c['kind']}"
+            ctx.oblige(name, ok, detail=c["exc"])
             if not ok:
                 ctx.violation("failing-input", target, {"check": "valid base call must be accepted", "target": target,
                                                         "kind": c["kind"], "kw": row["kw"], "shapes": c["shapes"], "observed": c["exc"],
-                                                        "broken": f"base-call:{target}:{row['tag'] or 'default'}:{c['kind']}"})
-        verdicts = []
-        for inv in c["invs"]:
-            cv = outs[inv["idx"]]
-            verdicts.append((inv["fn"], cv))
+                                                        "broken": name})
+            missing = [f for f in exp if f not in {i["fn"] for i in c["invs"] if not i["synthesized"]}]
+            if missing:
+                s.count("base-call-skips-a-guarding-check")
+                ctx.notes.append(f"{target} [{row['tag']}] ({c['kind']}) does not reach {missing} which guards its other code paths; "
+                                 "judged by that contract on name-resolved arguments")
+        verdicts = [(inv["fn"], outs[inv["idx"]]) for inv in c["invs"]]
         rejecting = [fn for fn, cv in verdicts if cv is False]
         nocontract = [fn for fn, cv in verdicts if not isinstance(cv, bool)]
-        if row.get("pycontract"):
-            if not _pycontract(row["pycontract"], c["targs"]):
-                rejecting.append("py:" + row["pycontract"])
-            decided = True
-        else:
-            reached_all = [i["fn"] for i in c["invs"]] == base_checks.get(key, [])
-            decided = bool(rejecting) or (reached_all and bool(verdicts))
-        if rejecting:
-            verdict = "reject"
-        elif decided:
-            verdict = "accept"
-        else:
-            verdict = "undecided"      # the call raised in glue code before reaching all its check functions
+        rejecting += ["py:weight-shape:" + w for w in SL.weight_contract(c["targs"])]
+        real = [i["fn"] for i in c["invs"] if not i["synthesized"]]
+        covered = {i["fn"] for i in c["invs"]}
+        decided = bool(rejecting) or (all(f in covered for f in exp) and bool(verdicts)) or bool(row.get("pycontract"))
+        verdict = "reject" if rejecting else ("accept" if decided else "undecided")
         nontrivial = c["label"][0] != "base"
         s.case((target, c["kind"], row["tag"], c["label"], repr(c["shapes"])), nontrivial,
-               sample={"target": target, "kind": c["kind"], "perturbation": c["label"], "shapes": c["shapes"],
+               sample={"target": target, "kind": c["kind"], "options": row["kw"], "perturbation": c["label"], "shapes": c["shapes"],
                        "impl": c["outcome"], "contract": verdict})
         s.count("target:" + target)
         s.count(f"{c['label'][0]}:{c['outcome']}/{verdict}")
+        if any(i["synthesized"] for i in c["invs"]):
+            s.count("judged-by-unreached-guard")
         for fn in nocontract:
             ctx.oblige(f"contract-missing:{fn}", False, detail="check function without hand-written contract")
         # A perturbed call that RAISES although the shape contracts accept it was rejected downstream of the shape checks
         # (value / dtype reasons introduced by the perturbation, or inline validation in glue code): raising is the safe
         # behaviour and is not judged here; the completeness direction is judged on the valid base rows (all documented
         # layouts) above.  The dangerous direction -- a value is RETURNED although the contract rejects -- is judged always.
-        agree = c["outcome"] == "raises" or (verdict == "accept" and c["outcome"] == "returns") or c["label"][0] == "base"
+        agree = c["outcome"] == "raises" or verdict != "reject" or c["label"][0] == "base"
         summary.append({"target": target, "kind": c["kind"], "tag": row["tag"], "label": c["label"], "shapes": c["shapes"],
                         "impl": c["outcome"], "exc": c["exc"], "contract": verdict, "rejecting": rejecting})
         if agree:
             continue
-        direction = "returns-though-contract-rejects" if c["outcome"] == "returns" else "raises-though-contract-accepts"
+        direction = "returns-though-contract-rejects"
         case = {"target": target, "kind": c["kind"], "direction": direction, "rejecting_checks": rejecting,
                 "shapes": c["shapes"], "kw": {**row["kw"], **row["ckw"]}}
         fid = match_finding(ctx, case)
@@ -254,8 +338,9 @@ def run(ctx):
                        "perturbation": {"mode": c["label"][0], "argument": c["label"][1], "operation": c["label"][2]},
                        "shapes": c["shapes"], "tensors": {a: t for a, t in c["targs"].items()},
                        "implementation": c["outcome"] + (": " + c["exc"] if c["exc"] else ""),
-                       "contract_verdict": verdict, "rejecting_contracts": rejecting, "direction": direction,
-                       "broken": f"shape-contract:{target}"},
+                       "contract_verdict": verdict, "rejecting_contracts": rejecting,
+                       "guards_not_reached_by_this_call": [i["fn"] for i in c["invs"] if i["synthesized"]],
+                       "direction": direction, "broken": f"shape-contract:{target}"},
                       finding_id=fid)
     (core.OUT / "C18").mkdir(parents=True, exist_ok=True)
     (core.OUT / "C18" / "perturbation-summary.json").write_text(json.dumps(core.canon(summary), indent=0))
